@@ -1,0 +1,63 @@
+//go:build verif && (verif_all || verif_c14)
+// +build verif
+// +build verif_all verif_c14
+
+package gocql
+
+// Verification hooks for C14, session tier (prepared statements on real connections): observation of the
+// session's statement cache from an external harness. Add-only; nothing here is reachable without the tags.
+
+import "encoding/hex"
+
+// VerifC14bOnEvicted installs fn as lru.Cache.OnEvicted of the session's statement cache: it is called,
+// with the cache mutex held, for every entry that leaves the cache (capacity eviction, remove, clear).
+// flight is the *inflightPrepare that was stored (opaque to the harness, see VerifC14bFlightTag).
+func VerifC14bOnEvicted(s *Session, fn func(key string, flight interface{})) {
+	s.stmtsLRU.mu.Lock()
+	s.stmtsLRU.lru.OnEvicted = fn
+	s.stmtsLRU.mu.Unlock()
+}
+
+// VerifC14bFlightTag describes a flight handed to the OnEvicted callback: "" while its PREPARE is pending,
+// "ok:<id hex>:<name of the first result column>" or "err:<error text>" once it is done.
+func VerifC14bFlightTag(flight interface{}) string {
+	f, ok := flight.(*inflightPrepare)
+	if !ok {
+		return "?"
+	}
+	select {
+	case <-f.done:
+	default:
+		return ""
+	}
+	if f.err != nil {
+		return "err:" + f.err.Error()
+	}
+	if f.preparedStatment == nil {
+		return "err:<nil prepared statement>"
+	}
+	name := ""
+	if cols := f.preparedStatment.response.columns; len(cols) > 0 {
+		name = cols[0].Name
+	}
+	return "ok:" + hex.EncodeToString(f.preparedStatment.id) + ":" + name
+}
+
+// VerifC14bCacheLen returns the number of entries of the statement cache (takes the cache mutex).
+func VerifC14bCacheLen(s *Session) int {
+	s.stmtsLRU.mu.Lock()
+	defer s.stmtsLRU.mu.Unlock()
+	return s.stmtsLRU.lru.Len()
+}
+
+// VerifC14bCacheLenLocked is VerifC14bCacheLen for use inside the OnEvicted callback (mutex already held).
+func VerifC14bCacheLenLocked(s *Session) int { return s.stmtsLRU.lru.Len() }
+
+// VerifC14bLockTouch acquires the cache mutex once, looking up a key that is never cached (no effect on
+// the cache or its recency order): ordinary contention on the session-wide cache lock.
+func VerifC14bLockTouch(s *Session) { s.stmtsLRU.evictPreparedID("\x00verif-c14b-absent", nil) }
+
+// VerifC14bKeyFor is preparedLRU.keyFor of the session's cache.
+func VerifC14bKeyFor(s *Session, hostID, keyspace, stmt string) string {
+	return s.stmtsLRU.keyFor(hostID, keyspace, stmt)
+}
